@@ -2759,7 +2759,7 @@ def orbital_equinox2equinox(epoch0, epoch, i0, arg0, lon0):
     lon0r = lon0.rad()
     pir = pie.rad()
     # If i0 is very small, the procedure is different
-    if i0 < 1.0:
+    if abs(i0) < TOL:  # Orbit in the plane of the ecliptic: node undefined
         i1 = eta
         lon1 = pie + p + 180.0
     else:
